@@ -121,6 +121,38 @@ fn mut_vec_failed_grow_then_into_slice() -> bool {
     inside
 }
 
+/// C06-b: `alloc_slice_fill` of a zero-sized type leaked the clones already made when a later `clone()` panicked
+fn zst_slice_fill_clone_panic() -> bool {
+    use std::sync::atomic::{AtomicUsize, Ordering};
+    static CREATED: AtomicUsize = AtomicUsize::new(0);
+    static DROPPED: AtomicUsize = AtomicUsize::new(0);
+    struct Z;
+    impl Clone for Z {
+        fn clone(&self) -> Self {
+            if CREATED.load(Ordering::SeqCst) >= 3 {
+                panic!("third clone panics");
+            }
+            CREATED.fetch_add(1, Ordering::SeqCst);
+            Z
+        }
+    }
+    impl Drop for Z {
+        fn drop(&mut self) {
+            DROPPED.fetch_add(1, Ordering::SeqCst);
+        }
+    }
+    let bump: Bump = Bump::new();
+    CREATED.fetch_add(1, Ordering::SeqCst); // the value handed in
+    std::panic::set_hook(Box::new(|_| {}));
+    let r = std::panic::catch_unwind(std::panic::AssertUnwindSafe(|| {
+        let _b = bump.alloc_slice_fill(5, Z);
+    }));
+    let _ = std::panic::take_hook();
+    let (c, d) = (CREATED.load(Ordering::SeqCst), DROPPED.load(Ordering::SeqCst));
+    println!("alloc_slice_fill(5, Z) with a panicking 3rd clone: unwound = {}, {c} values created, {d} dropped", r.is_err());
+    r.is_err() && c == d
+}
+
 fn main() {
     let which = std::env::args().nth(1).unwrap_or_default();
     let ok = match which.as_str() {
@@ -129,6 +161,7 @@ fn main() {
         "any_stats_header" => any_stats_header(),
         "zst_drain_double_drop" => zst_drain_double_drop(),
         "mut_vec_failed_grow_then_into_slice" => mut_vec_failed_grow_then_into_slice(),
+        "zst_slice_fill_clone_panic" => zst_slice_fill_clone_panic(),
         _ => {
             eprintln!("usage: findings reset_to_lower_aligned_checkpoint|without_shrink_unfit|any_stats_header");
             std::process::exit(2);
